@@ -755,7 +755,7 @@ def shuffle_cases(draw, tier):
 @st.composite
 def shuffle_batch_cases(draw, tier):
   b = draw(batch_sizes(tier))
-  sizes = draw(size_sequences(b, 6))
+  sizes = draw(size_sequences(b, 6, min_total=draw(st.sampled_from([0, 1, 12, 12]))))
   total = sum(sizes)
   buf = draw(st.one_of(
       st.integers(1, total + 3), st.integers(2, total + 3),
@@ -969,46 +969,46 @@ CHECKS = [
     Check(name='padded_client_datasets', run=run_padded_cds,
           strategy=lambda tier: padded_cases(tier, federated=False),
           labels=padded_labels, nontrivial=padded_nontrivial,
-          budget={'quick': 20000, 'thorough': 160000},
+          budget={'quick': 4500, 'thorough': 96000}, time_share=3.0,
           doc='padded_batch_client_datasets: unmasked rows == concatenation in '
               'client and example order; non-final batches full; final batch '
               'mask prefix + bucket rule; zero padding; inputs untouched'),
     Check(name='padded_federated_data', run=run_padded_fd,
           strategy=lambda tier: padded_cases(tier, federated=True),
           labels=padded_labels, nontrivial=padded_nontrivial,
-          budget={'quick': 7000, 'thorough': 56000},
+          budget={'quick': 1800, 'thorough': 36000}, time_share=1.5,
           doc='padded_batch_federated_data over InMemoryFederatedData: same '
               'oracle in sorted-client-id order, same stream on a second call'),
     Check(name='mismatch_rejected', run=run_mismatch,
           strategy=mismatch_cases, labels=mismatch_labels,
           nontrivial=lambda case, ls: True,
-          budget={'quick': 7000, 'thorough': 56000},
+          budget={'quick': 1800, 'thorough': 36000}, time_share=1.5,
           doc='foreign preprocessor object / feature set at a generated position '
               '-> ValueError, nothing of the foreign dataset emitted before it '
               '(padded_batch_client_datasets and buffered_shuffle_batch_client_datasets)'),
     Check(name='buffered_shuffle', run=run_buffered_shuffle,
           strategy=shuffle_cases, labels=shuffle_labels,
           nontrivial=lambda case, ls: case['n'] >= 2 and case['buffer_size'] >= 2,
-          budget={'quick': 10000, 'thorough': 80000},
+          budget={'quick': 2000, 'thorough': 48000}, time_share=1.5,
           doc='buffered_shuffle: multiset-equal output for every buffer size and '
               'iterable kind, reproducible per seed, non-trivial order'),
     Check(name='shuffle_batch_client_datasets', run=run_shuffle_batch,
           strategy=shuffle_batch_cases, labels=shuffle_batch_labels,
           nontrivial=lambda case, ls: sum(case['sizes']) >= 2 and case['buffer_size'] >= 2,
-          budget={'quick': 6000, 'thorough': 48000},
+          budget={'quick': 1400, 'thorough': 30000}, time_share=2.0,
           doc='buffered_shuffle_batch_client_datasets: every row exactly once, '
               'row contents intact, full batches except a non-empty last one, '
               'reproducible, non-trivial order'),
     Check(name='shuffle_repeat_federated_data', run=run_shuffle_repeat_fd,
           strategy=shuffle_repeat_cases, labels=shuffle_repeat_labels,
           nontrivial=lambda case, ls: sum(case['sizes']) >= 2 and case['example_buffer'] >= 2,
-          budget={'quick': 3500, 'thorough': 28000},
+          budget={'quick': 900, 'thorough': 18000}, time_share=1.5,
           doc='shuffle_repeat_batch_federated_data: full batches of genuine '
               'rows, per-pass conservation law, reproducible, non-trivial order'),
     Check(name='repeatable_iterator', run=run_repeatable,
           strategy=repeatable_cases, labels=repeatable_labels,
           nontrivial=lambda case, ls: case['n'] >= 1 and repeatable_passes(case) >= 2,
-          budget={'quick': 8000, 'thorough': 64000},
+          budget={'quick': 1600, 'thorough': 42000},
           doc='RepeatableIterator vs a position-pointer model over every base '
               'kind; generator bases are pulled exactly once'),
 ]
